@@ -5,7 +5,7 @@ package main
 
 import (
 	"fmt"
-	"go/token"
+	_ "go/token"
 	"go/types"
 	"strings"
 
@@ -86,9 +86,9 @@ func checkC17(c *Ctx) {
 			// reached only when Weekday()==Sunday
 			sunday := false
 			for _, f := range dominatingFacts(r.Block()) {
-				if b, ok := f.Cond.(*ssa.BinOp); ok && b.Op == token.EQL && f.Val {
-					if w, ok := b.X.(*ssa.Call); ok && w.Call.StaticCallee() != nil && w.Call.StaticCallee().Name() == "Weekday" {
-						if k, ok := constInt(b.Y); ok && k == 0 && (base == nil || w.Call.Args[0] == base) {
+				if fx, fy, equal, ok := eqFact(f); ok && equal {
+					if w, ok := fx.(*ssa.Call); ok && w.Call.StaticCallee() != nil && w.Call.StaticCallee().Name() == "Weekday" {
+						if k, ok := constInt(fy); ok && k == 0 && (base == nil || trivialPhi(w.Call.Args[0]) == trivialPhi(base)) {
 							sunday = true
 						}
 					}
